@@ -56,7 +56,7 @@ package executor
 //@   modifies nothing
 
 //@ func minerRefundExecutor.Execute
-//@   property C20
+//@   property C20 C06
 //@   option intmode=math
 //@   requires this != nil && this.logger != nil && context != nil
 //@   requires [ctx!init] has(context, "situation") && istype(context["situation"], string) && has(context, "refund") && istype(context["refund"], RefundMap) && unbox(context["refund"], RefundMap) != nil
